@@ -426,3 +426,53 @@ CHECKS["C11"] = dict(
     level_text="All histories over the shuffle alphabets up to the length bound are fed to the real engine and every draw-producing move is checked for an exact draw score.",
     level_note="Trusted: the oracle's repetition key; histories outside the 6 families are not covered.",
 )
+
+# ------------------------------------------------------------------------------------------ C08
+def c08_parts(tier, seed):
+    T = "c08_tt"
+    q = tier == "quick"
+    parts = [
+        P("slots-2x1", T, "sched", ["--part", "slots", "--threads", 2, "--ops", 1, "--init", 0], require=["probe_hits", "probe_misses"]),
+        P("slots-2x1-full", T, "sched", ["--part", "slots", "--threads", 2, "--ops", 1, "--init", 1], require=["schedules"]),
+        P("slots-2x1-oldgen", T, "sched", ["--part", "slots", "--threads", 2, "--ops", 1, "--init", 2], require=["probe_hits"]),
+        P("slots-2x2", T, "sched", ["--part", "slots", "--threads", 2, "--ops", 2, "--init", 0], require=["probe_hits"], deadline_frac=0.9),
+        P("slots-2x2-oldgen", T, "sched", ["--part", "slots", "--threads", 2, "--ops", 2, "--init", 2], require=["probe_hits"], deadline_frac=0.9),
+        P("slots-3x1", T, "sched", ["--part", "slots", "--threads", 3, "--ops", 1, "--init", 0], require=["probe_hits"], deadline_frac=0.9),
+        P("ply-shift", T, "sched", ["--part", "ply"], require=["nontrivial"]),
+        P("index-sweep", T, "sched", ["--part", "index"], require=["nontrivial"], deadline_frac=0.9),
+        P("real-tables-3men", T, "sched-asan", ["--part", "real", "--mb", "7,8,9,12,16,17,31,32,33,64", "--fourmen", 0], workers=10, require=["nontrivial"]),
+        P("real-tables-4men", T, "sched", ["--part", "real", "--mb", "7,8,16,64,100,128,255,256,257,258,260,512,515,516" + ("" if q else ",1024,1025,1028,2048,2052"), "--fourmen", 1], workers=16, require=["nontrivial"]),
+    ]
+    if not q:
+        parts += [
+            P("slots-2x2-full", T, "sched", ["--part", "slots", "--threads", 2, "--ops", 2, "--init", 1], require=["schedules"], deadline_frac=0.9),
+            P("slots-3x1-oldgen", T, "sched", ["--part", "slots", "--threads", 3, "--ops", 1, "--init", 2], require=["probe_hits"], deadline_frac=0.9),
+            P("slots-3x2", T, "sched", ["--part", "slots", "--threads", 3, "--ops", 2, "--init", 0, "--maxsched", 2000000], require=["probe_hits"], deadline_frac=0.95),
+            P("slots-2x2-asan", T, "sched-asan", ["--part", "slots", "--threads", 2, "--ops", 2, "--init", 0], require=["probe_hits"], deadline_frac=0.9),
+        ]
+    return parts
+
+CHECKS["C08"] = dict(
+    engine="vsched-explorer",
+    parts=c08_parts,
+    rule="states = distinct observable states (the 8 words of the bucket + per thread: finished flag, number of atomic accesses done, hash of every value read) reached over all "
+         "interleavings of all thread programs, plus scores x plies (ply-shift) and table sizes (index parts); transitions = atomic steps executed / getIndex or getScore evaluations; "
+         "non-trivial = every explored interleaving state (two or three threads on one bucket), mate scores, non-power-of-two sizes, tables with a resident tablebase",
+    alphabet="slots: 2-3 threads x 1-2 operations from {insert(k0), probe(k0), insert(k1), probe(k1), insert(k2), insert(k0 with empty move)} on three keys forced into one bucket of the real "
+             "TranspositionTable (512 entries); initial bucket {empty, full of other keys, k0 from an older generation}; thread programs up to symmetry, containing >= 1 insert and >= 1 probe; "
+             "scheduling points = every atomic load/store (atomic shim), ALL sequentially consistent interleavings, no preemption bound; ply: all scores |s| <= MATE0 x plies 0..200 x 0..200; "
+             "index: every Hash value 1..1024 MB, powers of two to 2^20 MB, each minus the tablebase region, in-tree sizes, every multiple of 4 in [512, 9000 (70000)] x all 2^16 key "
+             "prefixes x low-bit patterns; real tables: reSize(Hash) + real updateTB for Hash in a boundary list, then hash traffic",
+    oracle="a probe (during or after the interleaving) returns a miss or exactly one record that was passed to insert for that key (move of that call or, for an empty move, of an earlier "
+           "record); getScore(q) after setScore(s,p) = s shifted by p-q for mate scores, s otherwise; getIndex+3 < usedSize and 4-aligned; tablebase bytes unchanged by inserts, probes "
+           "and generation refreshes and the table still answers",
+    bound=dict(quick="2x1 (3 initial contents), 2x2 (2 initial contents), 3x1; full ply product; index sweep with 12 low-bit patterns; real tables Hash <= 516 MB",
+               thorough="additionally 2x2 full bucket, 3x1 old generation, 3x2 (capped at 2M schedules per program, reported), ASan build, index sweep with 52 patterns, Hash up to 2052 MB"),
+    assumptions=["keys and data words of the alphabet satisfy d_A xor d_B != k_A xor k_B (the xor scheme's stated assumption, true for random 64-bit Zobrist keys)",
+                 "sequentially consistent interleavings of the relaxed atomics only; store/load reordering of the two words is not modelled (no Spin model was built)",
+                 "state caching assumes thread-local state is a function of the values read so far (deterministic code)"],
+    technique="stateful exhaustive exploration of all interleavings of atomic accesses on the real code (fiber scheduler + atomic shim, state caching), plus exhaustive enumeration of scores/plies and table sizes",
+    level_text="Every sequentially consistent interleaving of the stated small thread programs on one bucket of the real table is explored (no preemption bound) and every probe result is "
+               "checked against the set of records ever stored; index arithmetic is enumerated over every configurable size and all 2^16 key prefixes.",
+    level_note="Trusted: the fiber scheduler (scheduling points only at atomic accesses; the code between them touches thread-local data only). Weak-memory reorderings are not covered.",
+)
